@@ -69,6 +69,7 @@ type rewriter struct {
 	chanName map[string]bool
 	sites    map[string]int
 	mapRange []string // diagnostics: go statements / yields lexically inside a range-over-map (best effort)
+	done     map[ast.Stmt]bool // statements that were already rewritten (they reappear inside generated blocks)
 }
 
 func (r *rewriter) site(pos token.Pos) ast.Expr {
@@ -141,6 +142,9 @@ func (r *rewriter) lockLoop(pos token.Pos, recv ast.Expr, name string) []ast.Stm
 }
 
 func (r *rewriter) rewriteStmt(st ast.Stmt) []ast.Stmt {
+	if r.done[st] {
+		return []ast.Stmt{st}
+	}
 	switch s := st.(type) {
 	case *ast.LabeledStmt:
 		res := r.rewriteStmt(s.Stmt)
@@ -200,8 +204,21 @@ func (r *rewriter) rewriteStmt(st ast.Stmt) []ast.Stmt {
 		if isRecv(s.X) {
 			return []ast.Stmt{r.yield(s.Pos(), "recv<"), s, r.yield(s.Pos(), "recv>")}
 		}
-		if _, _, ok := methodCall(s.X, "Wait"); ok {
-			return []ast.Stmt{r.yield(s.Pos(), "wait<"), s, r.yield(s.Pos(), "wait>")}
+		if recv, _, ok := methodCall(s.X, "Wait"); ok {
+			plain := []ast.Stmt{r.yield(s.Pos(), "wait<"), s, r.yield(s.Pos(), "wait>")}
+			r.done[s] = true
+			if addressable(recv) {
+				// x.Wait() may be sync.Cond.Wait (no such use in the pinned tree, but a change may
+				// add one): the simulator then plays the condition variable itself, because a
+				// goroutine that re-acquires the cond's mutex inside the real Wait would block
+				// where the bubble cannot see it.
+				return []ast.Stmt{r.condIf(recv, r.call("CondWait", ast.NewIdent("verifsimCond"), r.site(s.Pos())), plain)}
+			}
+			return plain
+		}
+		if recv, name, ok := methodCall(s.X, "Signal", "Broadcast"); ok && addressable(recv) {
+			r.done[s] = true
+			return []ast.Stmt{r.condIf(recv, r.call("Cond"+name, ast.NewIdent("verifsimCond")), []ast.Stmt{s})}
 		}
 		if recv, name, ok := methodCall(s.X, "Lock", "RLock"); ok {
 			return r.lockLoop(s.Pos(), recv, name)
@@ -229,6 +246,36 @@ func (r *rewriter) rewriteStmt(st ast.Stmt) []ast.Stmt {
 		}
 	}
 	return []ast.Stmt{st}
+}
+
+func addressable(e ast.Expr) bool {
+	switch x := e.(type) {
+	case *ast.Ident:
+		return true
+	case *ast.SelectorExpr:
+		return addressable(x.X)
+	case *ast.IndexExpr:
+		return addressable(x.X)
+	case *ast.StarExpr:
+		return true
+	case *ast.ParenExpr:
+		return addressable(x.X)
+	}
+	return false
+}
+
+// condIf builds: if verifsimCond, verifsimOK := verifsim.AsCond(&recv); verifsimOK { then } else { els }
+func (r *rewriter) condIf(recv ast.Expr, then *ast.CallExpr, els []ast.Stmt) ast.Stmt {
+	return &ast.IfStmt{
+		Init: &ast.AssignStmt{
+			Lhs: []ast.Expr{ast.NewIdent("verifsimCond"), ast.NewIdent("verifsimOK")},
+			Tok: token.DEFINE,
+			Rhs: []ast.Expr{r.call("AsCond", &ast.UnaryExpr{Op: token.AND, X: recv})},
+		},
+		Cond: ast.NewIdent("verifsimOK"),
+		Body: &ast.BlockStmt{List: []ast.Stmt{&ast.ExprStmt{X: then}}},
+		Else: &ast.BlockStmt{List: els},
+	}
 }
 
 func (r *rewriter) rewriteList(list []ast.Stmt) []ast.Stmt {
@@ -362,7 +409,7 @@ func processFile(fset *token.FileSet, repo, path string, chanNames map[string]bo
 		return nil, nil, err
 	}
 	rel, _ := filepath.Rel(repo, path)
-	r := &rewriter{fset: fset, rel: filepath.ToSlash(rel), imports: map[string]string{}, chanName: chanNames, sites: map[string]int{}}
+	r := &rewriter{fset: fset, rel: filepath.ToSlash(rel), imports: map[string]string{}, chanName: chanNames, sites: map[string]int{}, done: map[ast.Stmt]bool{}}
 	for _, im := range f.Imports {
 		p, _ := strconv.Unquote(im.Path.Value)
 		name := filepath.Base(p)
